@@ -1,0 +1,68 @@
+//! `cfg(libp2p_verif)` hooks for the verification harness (family `kad_beh`: C42, C43, C44).
+//!
+//! Thin `pub` access paths to crate-private items only; all code that runs is production code:
+//!
+//! * the wire message types and the codecs exactly as `ProtocolConfig` builds them for inbound
+//!   and outbound substreams (`req_msg_to_proto` / `proto_to_req_msg` / `resp_msg_to_proto` /
+//!   `proto_to_resp_msg` / `record_to_proto` / `record_from_proto` run through the codec's
+//!   `Encoder` / `Decoder` implementations),
+//! * the handler event types the behaviour consumes / emits and a `RequestId` constructor.
+
+use asynchronous_codec::Framed;
+use futures::io::{AsyncRead, AsyncWrite, Cursor};
+use libp2p_core::upgrade::{InboundUpgrade, OutboundUpgrade};
+use libp2p_swarm::StreamProtocol;
+
+pub use crate::{
+    handler::{HandlerEvent, HandlerIn, RequestId, verif_kad_beh_handler::request_id},
+    protocol::{Codec, ConnectionType, KadPeer, KadRequestMsg, KadResponseMsg, ProtocolConfig},
+};
+
+/// Codec of an inbound substream: decodes requests, encodes responses.
+pub type InboundCodec = Codec<KadResponseMsg, KadRequestMsg>;
+/// Codec of an outbound substream: encodes requests, decodes responses.
+pub type OutboundCodec = Codec<KadRequestMsg, KadResponseMsg>;
+
+fn config(max_packet_size: Option<usize>) -> (ProtocolConfig, StreamProtocol) {
+    let mut cfg = ProtocolConfig::new(crate::PROTOCOL_NAME);
+    if let Some(n) = max_packet_size {
+        cfg.set_max_packet_size(n);
+    }
+    (cfg, crate::PROTOCOL_NAME)
+}
+
+/// The `Framed` sink/stream `ProtocolConfig::upgrade_inbound` produces over `io`.
+pub fn inbound_framed<S>(io: S, max_packet_size: Option<usize>) -> Framed<S, InboundCodec>
+where
+    S: AsyncRead + AsyncWrite + Unpin,
+{
+    let (cfg, name) = config(max_packet_size);
+    cfg.upgrade_inbound(io, name)
+        .into_inner()
+        .expect("upgrade_inbound is infallible")
+}
+
+/// The `Framed` sink/stream `ProtocolConfig::upgrade_outbound` produces over `io`.
+pub fn outbound_framed<S>(io: S, max_packet_size: Option<usize>) -> Framed<S, OutboundCodec>
+where
+    S: AsyncRead + AsyncWrite + Unpin,
+{
+    let (cfg, name) = config(max_packet_size);
+    cfg.upgrade_outbound(io, name)
+        .into_inner()
+        .expect("upgrade_outbound is infallible")
+}
+
+/// The codec of an inbound substream, detached from any I/O.
+pub fn inbound_codec(max_packet_size: Option<usize>) -> InboundCodec {
+    inbound_framed(Cursor::new(Vec::new()), max_packet_size)
+        .into_parts()
+        .codec
+}
+
+/// The codec of an outbound substream, detached from any I/O.
+pub fn outbound_codec(max_packet_size: Option<usize>) -> OutboundCodec {
+    outbound_framed(Cursor::new(Vec::new()), max_packet_size)
+        .into_parts()
+        .codec
+}
